@@ -1,5 +1,7 @@
 package goja
 
+import "github.com/dop251/goja/unistring"
+
 // ---------------------------------------------------------------------
 // C10, third wave: thenable jobs (H10.3), then-chains on the default constructor path (H10.4), job order of
 // several chains against a reference scheduler written from ECMA-262 27.2 (H10.5), promise capabilities
@@ -747,5 +749,452 @@ func H_C10_job_order() {
 			}
 			vAssert("tracker:events", idx == m.track[i].idx && w.track[i].op == m.track[i].op)
 		}
+	}
+}
+
+// ---------------------------------------------------------------------
+// H10.6: promise capabilities and the Go-side resolvers. (a) newPromiseCapability(%Promise%) (27.2.1.5 on
+// the intrinsic path) + promiseCapability.resolve/reject/try; (b) Runtime.NewPromise(): the returned Go
+// functions are the promise's resolving functions behind ToValue + runWrapped, so a call from outside the
+// runtime drains the job queue before it returns (reactions have run, queue empty), a call made while a run
+// is active (call stack not empty) only queues, an uncatchable error raised by a job comes back as the
+// error, the remaining jobs are dropped and the interrupt flag is cleared.
+// Reference: first settling call wins; resolve(own promise) rejects with a TypeError; resolve(nil) fulfils
+// with null; each reaction exactly once, attachment order, right argument; tracker as in 27.2.1.9.
+
+func H_C10_capability() {
+	w := vC10New()
+	r, m := w.r, w.m
+	v1 := valueInt(vNondetInt64("v1"))
+	v2 := valueInt(vNondetInt64("v2"))
+	thrown := valueInt(vNondetInt64("thrown"))
+	via := vChoice("via", 3) // 0 capability, 1 NewPromise called from outside, 2 NewPromise called while a run is active
+	early := vChoice("reactions.attached-before-settlement", 2) == 1
+	proto := r.getPromisePrototype()
+
+	var p *Promise
+	var pcap *promiseCapability
+	var goRes, goRej func(interface{}) error
+	if via == 0 {
+		pcap = r.newPromiseCapability(r.getPromise())
+		po := pcap.promise
+		vAssert("capability:promise-object", po != nil)
+		var isP bool
+		p, isP = po.self.(*Promise)
+		vAssert("capability:new-pending-intrinsic-promise", isP && p.state == PromiseStatePending && p.prototype == proto && p.val == po)
+		_, c1 := pcap.resolveObj.self.assertCallable()
+		_, c2 := pcap.rejectObj.self.assertCallable()
+		vAssert("capability:functions-callable-and-distinct", c1 && c2 && pcap.resolveObj != pcap.rejectObj)
+	} else {
+		p, goRes, goRej = r.NewPromise()
+		vAssert("NewPromise:new-pending-intrinsic-promise", p != nil && p.state == PromiseStatePending && p.prototype == proto && p.val != nil && p.val.self == objectImpl(p))
+		if via == 2 {
+			m.callStack = append(m.callStack, context{pc: 3})
+		}
+	}
+	interrupts := false
+	if via == 1 && early {
+		interrupts = vChoice("reaction0.hits-an-interrupt", 2) == 1
+	}
+	intErr := &InterruptedError{iface: "stop"}
+	attach := func() {
+		for k := 0; k < 2; k++ {
+			f, j := w.reactionPair(k)
+			if k == 0 && interrupts {
+				boom := func(c FunctionCall) Value {
+					w.ev(vC10EvHandler, 0, c.Argument(0))
+					m.Interrupt("stop")
+					panic(intErr)
+				}
+				f.handler.callback, j.handler.callback = boom, boom
+			}
+			p.addReactions(f, j)
+		}
+	}
+	if early {
+		attach()
+	}
+
+	// ---- first settling call
+	const (
+		stPending = 0
+		stFul     = 1
+		stRej     = 2
+		stRejTE   = 3
+	)
+	st := stPending
+	var val Value
+	var err1, err2 error
+	tryRet, tryWant := true, true
+	if via == 0 {
+		switch vChoice("capability.op1", 6) {
+		case 0:
+			pcap.resolve(v1)
+			st, val = stFul, v1
+		case 1:
+			pcap.reject(v1)
+			st, val = stRej, v1
+		case 2:
+			tryRet, tryWant = pcap.try(func() {}), true
+		case 3:
+			tryRet, tryWant = pcap.try(func() { panic(thrown) }), false
+			st, val = stRej, thrown
+		case 4:
+			pcap.resolve(pcap.promise)
+			st = stRejTE
+		default:
+			t := w.thenable(1, func(call FunctionCall) Value {
+				w.ev(vC10EvThen, 1, nil)
+				f, _ := call.Argument(0).(*Object)
+				w.call(f, _undefined, v1)
+				return _undefined
+			})
+			pcap.resolve(t)
+			st, val = stFul, v1
+			vAssert("capability:thenable-not-called-synchronously", w.count(vC10EvThen, 1) == 0 && len(r.jobQueue) == 1)
+		}
+		vAssert("capability.try:result", tryRet == tryWant)
+	} else {
+		switch vChoice("NewPromise.op1", 4) {
+		case 0:
+			err1 = goRes(v1)
+			st, val = stFul, v1
+		case 1:
+			err1 = goRej(v1)
+			st, val = stRej, v1
+		case 2:
+			err1 = goRes(nil)
+			st, val = stFul, _null
+		default:
+			err1 = goRes(p) // ToValue(*Promise) is the promise object: self-resolution
+			st = stRejTE
+		}
+	}
+	// ---- second settling call (ignored unless the first one left the promise pending)
+	op2 := vChoice("op2", 3)
+	if op2 != 0 {
+		if via == 0 {
+			if op2 == 1 {
+				pcap.resolve(v2)
+			} else {
+				pcap.reject(v2)
+			}
+		} else if op2 == 1 {
+			err2 = goRes(v2)
+		} else {
+			err2 = goRej(v2)
+		}
+		if st == stPending {
+			st, val = op2, v2
+		}
+	}
+	trackAtSettle := len(w.track)
+
+	// ---- Go-side calls: drained or not when they return
+	if via == 1 && early {
+		if interrupts && st != stPending {
+			vAssert("outside:uncatchable-job-error-returned", err1 == error(intErr) && err2 == nil)
+			vAssert("outside:remaining-jobs-dropped", len(r.jobQueue) == 0 && len(w.log) == 1 && w.log[0].kind == vC10EvHandler)
+			vAssert("outside:interrupt-flag-cleared", m.interrupted == 0)
+		} else {
+			vAssert("outside:no-error", err1 == nil && err2 == nil)
+			vAssert("outside:reactions-ran-before-the-call-returned", len(r.jobQueue) == 0 && len(w.log) == 2)
+		}
+	}
+	if via == 1 && !early {
+		vAssert("outside:no-error(no reactions)", err1 == nil && err2 == nil && len(r.jobQueue) == 0 && len(w.log) == 0)
+	}
+	if via == 2 {
+		vAssert("inside:no-error", err1 == nil && err2 == nil)
+		want := 0
+		if early {
+			want = 2
+		}
+		vAssert("inside:jobs-only-queued", len(w.log) == 0 && len(r.jobQueue) == want)
+		m.callStack = m.callStack[:0]
+	}
+	if !early {
+		nlog := len(w.log)
+		attach()
+		// settled: one job per reaction pair; still pending (nothing called yet, or waiting for the thenable job): none
+		wantJobs := 2
+		if st == stPending {
+			wantJobs = 0
+		}
+		if nlog == 1 { // the thenable's Get was logged: its job is queued, the promise is pending
+			wantJobs = 1
+		}
+		vAssert("late:jobs-queued-only-for-a-settled-promise", len(w.log) == nlog && len(r.jobQueue) == wantJobs)
+	}
+	if !interrupts {
+		r.leave()
+	}
+	vAssert("queue-empty-at-the-end", len(r.jobQueue) == 0)
+
+	// ---- state
+	switch st {
+	case stPending:
+		vAssert("state:pending", p.state == PromiseStatePending)
+	case stFul:
+		vAssert("state:fulfilled-first-call-wins", p.state == PromiseStateFulfilled && p.result == val)
+	case stRej:
+		vAssert("state:rejected-first-call-wins", p.state == PromiseStateRejected && p.result == val)
+	default:
+		o, isObj := p.result.(*Object)
+		vAssert("state:self-resolution-TypeError", p.state == PromiseStateRejected && isObj && vClassify(o) == "TypeError")
+	}
+	// ---- reactions
+	if interrupts {
+		return
+	}
+	nThen := 0
+	if len(w.log) > 0 && w.log[0].kind == vC10EvGet {
+		vAssert("capability:thenable-job", len(w.log) >= 2 && w.log[1].kind == vC10EvThen && w.count(vC10EvThen, 1) == 1 && w.count(vC10EvGet, 1) == 1)
+		nThen = 2
+	}
+	if st == stPending {
+		vAssert("reactions:none-while-pending", len(w.log) == 0)
+	} else {
+		wantKind := vC10EvReactR
+		if st == stFul {
+			wantKind = vC10EvReactF
+		}
+		vAssert("reactions:each-exactly-once", len(w.log) == nThen+2)
+		if len(w.log) == nThen+2 {
+			a, b := w.log[nThen], w.log[nThen+1]
+			vAssert("reactions:attachment-order-and-kind", a.id == 0 && b.id == 1 && a.kind == wantKind && b.kind == wantKind)
+			if st != stRejTE {
+				vAssert("reactions:argument", a.arg == val && b.arg == val)
+			} else {
+				vAssert("reactions:argument(TypeError)", a.arg == p.result && b.arg == p.result)
+			}
+		}
+	}
+	// ---- tracker
+	if (st == stRej || st == stRejTE) && !early {
+		vAssert("tracker:reject-then-handle", trackAtSettle == 1 && len(w.track) == 2 && w.track[0].op == PromiseRejectionReject && w.track[1].op == PromiseRejectionHandle && w.track[0].p == p && w.track[1].p == p)
+	} else {
+		vAssert("tracker:silent", len(w.track) == 0)
+	}
+}
+
+// ---------------------------------------------------------------------
+// H10.7: PromiseResolve(C, x) (27.2.4.7.1) with C = %Promise% - used by Promise.resolve, the combinators,
+// finally and by `await` (func.go: asyncRunner.step does promiseResolve(...).self.(*Promise) unchecked).
+// Reference: the result is always a promise; it is x itself iff IsPromise(x) and Get(x,"constructor") is C;
+// "constructor" is read only when IsPromise(x); otherwise a NEW intrinsic promise resolved with x (non-thenable:
+// fulfilled with x at once; thenable: pending, exactly one job, then called once in that job).
+
+type vC10Obj struct {
+	baseObject
+	onGet func(name unistring.String) Value
+}
+
+func (t *vC10Obj) getStr(name unistring.String, receiver Value) Value {
+	if v := t.onGet(name); v != nil {
+		return v
+	}
+	return t.baseObject.getStr(name, receiver)
+}
+
+func H_C10_promiseResolve() {
+	w := vC10New()
+	r := w.r
+	C := r.getPromise()
+	proto := r.getPromisePrototype()
+	v := valueInt(vNondetInt64("v"))
+	// 0 number; 1 intrinsic promise; 2 promise with an own "constructor" that is not C;
+	// 3 ordinary object whose constructor is C; 4 ordinary object, other constructor; 5 thenable, other constructor
+	kind := vChoice("x", 6)
+	other := vC10PlainObj(r)
+	ctorGets := 0
+	var x Value
+	var xp *Promise
+	var xRes *Object
+	mkObj := func(ctor Value, then Value) *Object {
+		o := &Object{runtime: r}
+		t := &vC10Obj{baseObject: baseObject{class: classObject, val: o, extensible: true}}
+		t.baseObject.init()
+		o.self = t
+		t.onGet = func(name unistring.String) Value {
+			switch name {
+			case "constructor":
+				ctorGets++
+				return ctor
+			case "then":
+				w.ev(vC10EvGet, 1, nil)
+				return then
+			}
+			return nil
+		}
+		return o
+	}
+	switch kind {
+	case 0:
+		x = v
+	case 1, 2:
+		xp = r.newPromise(proto)
+		xRes, _ = xp.createResolvingFunctions()
+		if kind == 2 {
+			xp._putProp("constructor", other, true, false, true)
+		}
+		x = xp.val
+	case 3:
+		x = mkObj(C, _undefined)
+	case 4:
+		x = mkObj(other, _undefined)
+	default:
+		x = mkObj(other, r.newNativeFunc(func(call FunctionCall) Value {
+			w.ev(vC10EvThen, 1, nil)
+			f, _ := call.Argument(0).(*Object)
+			w.call(f, _undefined, v)
+			return _undefined
+		}, "then", 2))
+	}
+	res := r.promiseResolve(C, x)
+	vAssert("PromiseResolve:returns-an-object", res != nil)
+	rp, isP := res.self.(*Promise)
+	vAssertK("PromiseResolve:result-is-a-promise", isP, kind == 3, "F-C10-promiseResolve-nonpromise")
+	if !isP {
+		return
+	}
+	switch kind {
+	case 1:
+		vAssert("PromiseResolve:same-promise-when-constructor-is-C", res == xp.val && len(r.jobQueue) == 0)
+		return
+	}
+	vAssert("PromiseResolve:new-intrinsic-promise", Value(res) != x && rp.prototype == proto)
+	switch kind {
+	case 0, 3, 4:
+		vAssert("PromiseResolve:fulfilled-with-x", rp.state == PromiseStateFulfilled && rp.result == x && len(r.jobQueue) == 0)
+	case 2:
+		vAssert("PromiseResolve:pending-on-the-promise-x", rp.state == PromiseStatePending && len(r.jobQueue) == 1)
+		r.leave()
+		vAssert("PromiseResolve:still-pending-while-x-is", rp.state == PromiseStatePending && len(r.jobQueue) == 0)
+		w.call(xRes, _undefined, v)
+		r.leave()
+		vAssert("PromiseResolve:adopts-the-state-of-x", rp.state == PromiseStateFulfilled && rp.result == v && len(r.jobQueue) == 0)
+	case 5:
+		vAssert("PromiseResolve:thenable-only-queued", rp.state == PromiseStatePending && len(r.jobQueue) == 1 && w.count(vC10EvThen, 1) == 0 && w.count(vC10EvGet, 1) == 1)
+		r.leave()
+		vAssert("PromiseResolve:thenable-called-once-in-its-job", w.count(vC10EvThen, 1) == 1 && w.count(vC10EvGet, 1) == 1 && rp.state == PromiseStateFulfilled && rp.result == v && len(r.jobQueue) == 0)
+	}
+	vAssert("tracker:silent", len(w.track) == 0)
+	// last, because a failing known-finding assertion ends the path
+	if kind >= 3 {
+		vAssertK("PromiseResolve:constructor-read-only-when-IsPromise(x)", ctorGets == 0, true, "F-C10-promiseResolve-nonpromise")
+	}
+}
+
+// ---------------------------------------------------------------------
+// H10.8: Promise.prototype.finally (27.2.5.3) through the real promiseProto_finally -> invoke("then") ->
+// promiseProto_then -> thenFinally/catchFinally -> promiseResolve -> invoke("then", valueThunk/thrower).
+// Reference: onFinally is called exactly once, with this=undefined and no arguments, as a job; the result
+// promise adopts the original settlement when onFinally returns a value or a promise that fulfils; it is
+// rejected with onFinally's throw / with the reason of the rejected promise it returns; a non-callable
+// onFinally passes the settlement through; nothing runs synchronously; queue empty after the drain.
+
+func H_C10_finally() {
+	w := vC10New()
+	r := w.r
+	proto := r.getPromisePrototype()
+	p := r.newPromise(proto)
+	resolve, reject := p.createResolvingFunctions()
+	v0 := valueInt(vNondetInt64("v0"))
+	rv := valueInt(vNondetInt64("returned"))
+	tv := valueInt(vNondetInt64("thrown"))
+	xv := valueInt(vNondetInt64("x.value"))
+	baseFul := vChoice("base.fulfilled", 2) == 1
+	settleFirst := vChoice("base.settled-before-finally", 2) == 1
+	beh := vChoice("onFinally", 5) // 0 returns a value, 1 throws, 2 returns a fulfilled promise, 3 returns a rejected promise, 4 not callable
+	calls, nargs := 0, 0
+	var this Value
+	var onFinally Value = valueInt(5)
+	var xp *Promise
+	if beh != 4 {
+		onFinally = r.newNativeFunc(func(call FunctionCall) Value {
+			calls++
+			nargs += len(call.Arguments)
+			this = call.This
+			switch beh {
+			case 1:
+				panic(tv)
+			case 2, 3:
+				xp = r.newPromise(proto)
+				xres, xrej := xp.createResolvingFunctions()
+				if beh == 2 {
+					w.call(xres, _undefined, xv)
+				} else {
+					w.call(xrej, _undefined, xv)
+				}
+				return xp.val
+			}
+			return rv
+		}, "", 0)
+	}
+	settle := func() {
+		if baseFul {
+			w.call(resolve, _undefined, v0)
+		} else {
+			w.call(reject, _undefined, v0)
+		}
+	}
+	if settleFirst {
+		settle()
+	}
+	qo, _ := r.promiseProto_finally(FunctionCall{This: p.val, Arguments: []Value{onFinally}}).(*Object)
+	vAssert("finally:returns-an-object", qo != nil)
+	q, isP := qo.self.(*Promise)
+	vAssert("finally:new-pending-intrinsic-promise", isP && q != p && q.state == PromiseStatePending && q.prototype == proto)
+	if !settleFirst {
+		settle()
+	}
+	vAssert("finally:nothing-runs-synchronously", calls == 0 && len(r.jobQueue) == 1)
+	r.leave()
+	vAssert("queue-empty-after-drain", len(r.jobQueue) == 0)
+	wantFul, wantVal := baseFul, Value(v0)
+	switch beh {
+	case 1:
+		wantFul, wantVal = false, tv
+	case 3:
+		wantFul, wantVal = false, xv
+	}
+	if beh == 4 {
+		vAssert("finally:non-callable-never-called", calls == 0)
+	} else {
+		vAssert("finally:onFinally-exactly-once-no-arguments", calls == 1 && nargs == 0)
+	}
+	if wantFul {
+		vAssert("finally:result-fulfilled", q.state == PromiseStateFulfilled && q.result == wantVal)
+	} else {
+		vAssert("finally:result-rejected", q.state == PromiseStateRejected && q.result == wantVal)
+	}
+	vAssert("finally:original-unchanged", p.result == v0 && (p.state == PromiseStateFulfilled) == baseFul)
+	// tracker events of the two observable promises
+	var evP, evQ []PromiseRejectionOperation
+	lastIsQ := false
+	for _, t := range w.track {
+		lastIsQ = false
+		if t.p == p {
+			evP = append(evP, t.op)
+		}
+		if t.p == q {
+			evQ = append(evQ, t.op)
+			lastIsQ = true
+		}
+	}
+	if !baseFul && settleFirst {
+		vAssert("tracker:original-reject-then-handle", len(evP) == 2 && evP[0] == PromiseRejectionReject && evP[1] == PromiseRejectionHandle)
+	} else {
+		vAssert("tracker:original-silent", len(evP) == 0)
+	}
+	if wantFul {
+		vAssert("tracker:result-silent", len(evQ) == 0)
+	} else {
+		vAssert("tracker:result-rejected-unhandled-last", len(evQ) == 1 && evQ[0] == PromiseRejectionReject && lastIsQ)
+	}
+	// last, because a failing known-finding assertion ends the path
+	if beh != 4 {
+		vAssertK("finally:onFinally-this-is-undefined", this == _undefined, true, "F-C10-finally-nil-this")
 	}
 }
